@@ -238,8 +238,6 @@ def default_value(I, ty):
     if t == 'Response':
         from .models_cw import new_response
         return new_response()
-    if t == 'PoolStatus':
-        return St('PoolStatus', [False, False, False], ['swaps_enabled', 'deposits_enabled', 'withdrawals_enabled'])
     raise Unsupported('Default for ' + ty)
 
 
@@ -271,6 +269,9 @@ def unwrap_or_default(I, c):
 
 @model_re(r'as Default>::default$')
 def default_trait(I, c):
+    f = I.resolve_impl(c.self_ty, 'Default', 'default', [], c.fn.src if c.fn else None)
+    if f is not None and type_base(f.ret).split('::')[-1] == type_base(c.self_ty).split('::')[-1]:
+        return I.call_fn(f, [])
     return default_value(I, c.self_ty)
 
 
